@@ -53,12 +53,21 @@ def _case_setup(case):
     if 'xT' in case:
         # temperatures strictly inside a named segment: the acceptable segment is known by construction
         Ts = []
+        acc = []
         for j, u in case['xT']:
             lo, hi = bounds[segs[j - 1][0]], bounds[segs[j - 1][1]]
+            if u in (0.0, 1.0):
+                # exactly ON a bound of the segment (a long array may hold break temperatures too): every segment
+                # that has this bound is acceptable here; which one the library takes is judged by the TLC cases,
+                # array = map of scalar is judged on this element like on any other
+                b = segs[j - 1][0] if u == 0.0 else segs[j - 1][1]
+                Ts.append(float(bounds[b]))
+                acc.append(sorted(k + 1 for k, sg in enumerate(segs) if b in sg))
+                continue
             T = lo + u * (hi - lo)
             T = min(max(T, math.nextafter(lo, math.inf)), math.nextafter(hi, -math.inf))
             Ts.append(T)
-        acc = [[j] for j, _ in case['xT']]
+            acc.append([j])
     else:
         last_b = segs[-1][1]
         Ts = [L.pos_to_T(p, bounds, last_b) for p in case['ps']]
@@ -500,6 +509,8 @@ def _select_cases(ctx, rnd, rr, data, units):
                 xs = [[rnd.randrange(nseg) + 1, rnd.random()] for _ in range(n)]
                 for _ in range(max(1, n // 8)):               # repeated temperatures
                     xs[rnd.randrange(n)] = list(xs[rnd.randrange(n)])
+                for _ in range(max(2, n // 10)):              # temperatures exactly on segment bounds
+                    xs[rnd.randrange(n)] = [rnd.randrange(nseg) + 1, float(rnd.randrange(2))]
                 c = {'kind': 'select', 'f': f, 'segs': lay['segs'], 'ord': lay['ord'], 'xT': xs,
                      'bset': rep % 4, 'cseed': rnd.randrange(1 << 30), 'emp': True, 'twod': False}
                 cases.append(_assign_forms(rr, rnd, f, c, units))
